@@ -218,3 +218,135 @@ Proof.
 Qed.
 
 End RoundTrip.
+
+(* ---------------------------------------------------------------- decoded values are well-formed *)
+
+Lemma bytes_ok_app a b : bytes_ok (a ++ b) = true <-> bytes_ok a = true /\ bytes_ok b = true.
+Proof. unfold bytes_ok. rewrite forallb_app. split; [apply andb_prop | intros [-> ->]; reflexivity]. Qed.
+
+Lemma signed_range w u : 0 < w -> 0 <= u < pow256 w -> - (pow256 w / 2) <= to_signed w u < pow256 w / 2.
+Proof.
+  intros Hw Hu. unfold to_signed.
+  assert (Heven : pow256 w = 2 * (pow256 w / 2)).
+  { unfold pow256. replace w with (Z.succ (w - 1)) by lia. rewrite Z.pow_succ_r by lia.
+    replace (256 * 256 ^ (w - 1)) with ((128 * 256 ^ (w - 1)) * 2) by lia.
+    rewrite Z.div_mul by lia. lia. }
+  destruct (Z.ltb_spec u (pow256 w / 2)); lia.
+Qed.
+
+Lemma dec_hdr_spec tag ty bs len r :
+  dec_hdr tag ty bs = Some (len, r) -> bytes_ok bs = true ->
+  exists h, bs = h ++ r /\ zlen h = 8 /\ 0 <= len < TWO32 /\ bytes_ok r = true.
+Proof.
+  unfold dec_hdr. intros H Hok.
+  destruct (take_exact 3 bs) as [[t r1]|] eqn:E1; [|discriminate].
+  destruct (negb (be_dec t =? tag)); [discriminate|].
+  destruct (take_exact 1 r1) as [[y r2]|] eqn:E2; [|discriminate].
+  destruct (negb (be_dec y =? ty)); [discriminate|].
+  destruct (take_exact 4 r2) as [[l r3]|] eqn:E3; [|discriminate].
+  injection H as <- <-.
+  apply take_exact_spec in E1 as [-> L1]. apply take_exact_spec in E2 as [-> L2]. apply take_exact_spec in E3 as [-> L3].
+  apply bytes_ok_app in Hok as [_ Hok]. apply bytes_ok_app in Hok as [_ Hok]. apply bytes_ok_app in Hok as [Hl Hr].
+  exists (t ++ y ++ l). split; [rewrite <- !app_assoc; reflexivity|].
+  split; [rewrite !zlen_app; lia|]. split; [|exact Hr].
+  pose proof (be_dec_bound l Hl) as Hb. rewrite L3 in Hb. change (pow256 4) with TWO32 in Hb. exact Hb.
+Qed.
+
+Lemma dec_u32_pad_spec bs u r : dec_u32_pad bs = Some (u, r) -> bytes_ok bs = true -> 0 <= u < TWO32.
+Proof.
+  unfold dec_u32_pad. intros H Hok.
+  destruct (take_exact 4 bs) as [[x r1]|] eqn:E1; [|discriminate].
+  destruct (take_exact 4 r1) as [[p r2]|] eqn:E2; [|discriminate].
+  destruct (be_dec p =? 0); [|discriminate]. injection H as <- <-.
+  apply take_exact_spec in E1 as [-> L1]. apply bytes_ok_app in Hok as [Hx _].
+  pose proof (be_dec_bound x Hx) as Hb. rewrite L1 in Hb. exact Hb.
+Qed.
+
+Lemma dec_padded_spec len bs x r : dec_padded len bs = Some (x, r) -> bytes_ok bs = true ->
+  zlen x = len /\ bytes_ok x = true.
+Proof.
+  unfold dec_padded. intros H Hok.
+  destruct (take_exact len bs) as [[y r1]|] eqn:E1; [|discriminate].
+  destruct (take_exact (pad_len len) r1) as [[p r2]|] eqn:E2; [|discriminate].
+  destruct (all_zero p); [|discriminate]. injection H as <- <-.
+  apply take_exact_spec in E1 as [-> L1]. apply bytes_ok_app in Hok as [Hy _]. split; assumption.
+Qed.
+
+Section DecWf.
+Variable mem : Z -> bool.
+
+Theorem dec_wf t tag bs p rest :
+  bytes_ok bs = true -> zlen bs < TWO31 ->
+  dec_prim mem t tag bs = Some (p, rest) -> wf_prim mem p = true /\ ptype_of p = t.
+Proof.
+  intros Hok Hsmall H. unfold dec_prim in H.
+  destruct (dec_hdr tag (type_code t) bs) as [[len r]|] eqn:Eh; [|discriminate].
+  destruct (dec_hdr_spec _ _ _ _ _ Eh Hok) as (h & -> & Lh & Hlen & Hr).
+  rewrite zlen_app in Hsmall. pose proof (zlen_nonneg r) as Hrn.
+  destruct t.
+  - destruct (negb (len =? 4)); [discriminate|].
+    destruct (dec_u32_pad r) as [[u r']|] eqn:Eu; [|discriminate]. injection H as <- <-.
+    pose proof (dec_u32_pad_spec _ _ _ Eu Hr) as Hu. split; [|reflexivity]. cbn [wf_prim].
+    pose proof (signed_range 4 u ltac:(lia) ltac:(rewrite p4z; exact Hu)) as Hs. rewrite h4 in Hs. lia.
+  - destruct (negb (len =? 8)); [discriminate|].
+    destruct (take_exact 8 r) as [[x r']|] eqn:Ex; [|discriminate]. injection H as <- <-.
+    apply take_exact_spec in Ex as [-> Lx]. apply bytes_ok_app in Hr as [Hx _].
+    pose proof (be_dec_bound x Hx) as Hb. rewrite Lx in Hb. split; [|reflexivity]. cbn [wf_prim].
+    pose proof (signed_range 8 (be_dec x) ltac:(lia) Hb) as Hs. rewrite h8 in Hs. lia.
+  - destruct (negb (len mod 8 =? 0)) eqn:Em; [discriminate|].
+    destruct (len =? 0) eqn:E0; [discriminate|].
+    destruct (take_exact len r) as [[x r']|] eqn:Ex; [|discriminate]. injection H as <- <-.
+    apply take_exact_spec in Ex as [-> Lx]. apply bytes_ok_app in Hr as [Hx _].
+    pose proof (be_dec_bound x Hx) as Hb. rewrite Lx in Hb. split; [|reflexivity]. cbn [wf_prim].
+    rewrite zlen_app in Hsmall. pose proof (zlen_nonneg r').
+    pose proof (signed_range len (be_dec x) ltac:(lia) Hb) as Hs.
+    set (s := to_signed len (be_dec x)) in *.
+    (* |s| <= 2^(8 len - 1), so bitlen |s| <= 8 len and big_words s <= len/8 + 1 *)
+    assert (Hhalf : pow256 len / 2 = 2 ^ (8 * len - 1)).
+    { unfold pow256. change 256 with (2 ^ 8). rewrite <- Z.pow_mul_r by lia.
+      replace (8 * len) with (Z.succ (8 * len - 1)) at 1 by lia.
+      rewrite Z.pow_succ_r by lia. rewrite Z.mul_comm, Z.div_mul by lia. reflexivity. }
+    rewrite Hhalf in Hs.
+    assert (Hbl : bitlen (Z.abs s) <= 8 * len).
+    { unfold bitlen. destruct (Z.eqb_spec (Z.abs s) 0); [lia|].
+      assert (Z.abs s <= 2 ^ (8 * len - 1)) by lia.
+      assert (Z.log2 (Z.abs s) <= Z.log2 (2 ^ (8 * len - 1))) by (apply Z.log2_le_mono; lia).
+      rewrite Z.log2_pow2 in * by lia. lia. }
+    unfold big_words.
+    assert (bitlen (Z.abs s) / 64 <= (8 * len) / 64) by (apply Z.div_le_mono; lia).
+    assert ((8 * len) / 64 = len / 8) by (change 64 with (8 * 8); apply Z.div_mul_cancel_l; lia).
+    assert (8 * (len / 8) <= len) by (apply Z.mul_div_le; lia).
+    unfold TWO31, TWO32 in *. lia.
+  - destruct (negb (len =? 4)); [discriminate|].
+    destruct (dec_u32_pad r) as [[u r']|] eqn:Eu; [|discriminate].
+    destruct (mem u) eqn:Emem; [|discriminate]. injection H as <- <-.
+    pose proof (dec_u32_pad_spec _ _ _ Eu Hr) as Hu. split; [|reflexivity]. cbn [wf_prim]. rewrite Emem. lia.
+  - destruct (take_exact 8 r) as [[x r']|] eqn:Ex; [|discriminate].
+    destruct (be_dec x =? 1); [injection H as <- <-; split; reflexivity|].
+    destruct (be_dec x =? 0); [injection H as <- <-; split; reflexivity|discriminate].
+  - destruct (dec_padded len r) as [[x r']|] eqn:Ex; [|discriminate].
+    destruct (forallb ascii_ok x) eqn:Ea; [|discriminate]. injection H as <- <-.
+    apply dec_padded_spec in Ex as [Lx Hx]; [|exact Hr]. split; [|reflexivity]. cbn [wf_prim]. rewrite Ea. unfold TWO32 in *. lia.
+  - destruct (dec_padded len r) as [[x r']|] eqn:Ex; [|discriminate]. injection H as <- <-.
+    apply dec_padded_spec in Ex as [Lx Hx]; [|exact Hr]. split; [|reflexivity]. cbn [wf_prim]. rewrite Hx. unfold TWO32 in *. lia.
+  - destruct (negb (len =? 8)); [discriminate|].
+    destruct (take_exact 8 r) as [[x r']|] eqn:Ex; [|discriminate]. injection H as <- <-.
+    apply take_exact_spec in Ex as [-> Lx]. apply bytes_ok_app in Hr as [Hx _].
+    pose proof (be_dec_bound x Hx) as Hb. rewrite Lx in Hb. split; [|reflexivity]. cbn [wf_prim].
+    pose proof (signed_range 8 (be_dec x) ltac:(lia) Hb) as Hs. rewrite h8 in Hs. lia.
+  - destruct (negb (len =? 4)); [discriminate|].
+    destruct (dec_u32_pad r) as [[u r']|] eqn:Eu; [|discriminate]. injection H as <- <-.
+    pose proof (dec_u32_pad_spec _ _ _ Eu Hr) as Hu. split; [|reflexivity]. cbn [wf_prim]. lia.
+Qed.
+
+(* for any byte string the decoder accepts: decode, encode, decode gives the same value *)
+Theorem dec_enc_dec t tag bs p rest :
+  tag_ok tag = true -> bytes_ok bs = true -> zlen bs < TWO31 ->
+  dec_prim mem t tag bs = Some (p, rest) ->
+  exists bs', enc_prim tag p = Some bs' /\ forall rest', dec_prim mem t tag (bs' ++ rest') = Some (p, rest').
+Proof.
+  intros Ht Hok Hs H. destruct (dec_wf _ _ _ _ _ Hok Hs H) as [Hwf <-].
+  exact (prim_roundtrip mem tag p Ht Hwf).
+Qed.
+
+End DecWf.
